@@ -25,6 +25,7 @@ package main
 import (
 	"bufio"
 	"encoding/json"
+	"errors"
 	"flag"
 	"fmt"
 	"math"
@@ -38,6 +39,7 @@ import (
 	"github.com/smasher164/xid"
 	"github.com/theory/sqljson/path"
 	"github.com/theory/sqljson/path/ast"
+	"github.com/theory/sqljson/path/parser"
 )
 
 func init() {
@@ -362,10 +364,87 @@ func goParse(src string) (res J, p *path.Path) {
 		}
 	}()
 	pp, err := path.Parse(src)
+	if g := parseGlue(src, pp, err); g != "" {
+		// the wrappers around the modelled core (C02, C04): any deviation shows up as a disagreement
+		return J{"out": "glue", "what": g}, nil
+	}
 	if err != nil {
 		return J{"out": "err"}, nil
 	}
 	return J{"out": "ok", "ast": encAST(pp.AST), "str": pp.String()}, pp
+}
+
+// parseGlue checks what C02/C04 say about the functions wrapped around parser.Parse and
+// AST.String, which the Lean model does not contain: error wrapping, MustParse, Scan,
+// Marshal/Unmarshal Text/Binary, Value, IsPredicate/PgIndexOperator. "" = all as stated.
+func parseGlue(src string, pp *path.Path, err error) (what string) {
+	defer func() {
+		if r := recover(); r != nil {
+			what = fmt.Sprint("panic in a wrapper: ", r)
+		}
+	}()
+	mustPanics := func() (p *path.Path, panicked bool) {
+		defer func() {
+			if recover() != nil {
+				panicked = true
+			}
+		}()
+		return path.MustParse(src), false
+	}
+	mp, panicked := mustPanics()
+	var viaText, viaBin, viaScanS, viaScanB path.Path
+	eText, eBin := viaText.UnmarshalText([]byte(src)), viaBin.UnmarshalBinary([]byte(src))
+	eScanS, eScanB := viaScanS.Scan(src), viaScanB.Scan([]byte(src))
+	if err != nil {
+		switch {
+		case pp != nil:
+			return "Parse returned a path and an error"
+		case !errors.Is(err, path.ErrPath) || !errors.Is(err, parser.ErrParse):
+			return "Parse error does not wrap ErrPath and ErrParse"
+		case !panicked:
+			return "MustParse did not panic on a parse error"
+		case eText == nil || !errors.Is(eText, path.ErrScan) || !errors.Is(eText, parser.ErrParse):
+			return "UnmarshalText does not report the parse failure wrapped in ErrScan"
+		case eBin == nil || !errors.Is(eBin, path.ErrScan) || !errors.Is(eBin, parser.ErrParse):
+			return "UnmarshalBinary does not report the parse failure wrapped in ErrScan"
+		}
+		if src != "" {
+			if eScanS == nil || !errors.Is(eScanS, path.ErrScan) || eScanB == nil || !errors.Is(eScanB, path.ErrScan) {
+				return "Scan does not report the parse failure wrapped in ErrScan"
+			}
+		}
+		return ""
+	}
+	if pp == nil || pp.AST == nil {
+		return "Parse returned neither a path nor an error"
+	}
+	str := pp.String()
+	switch {
+	case panicked || mp == nil || mp.String() != str:
+		return "MustParse differs from Parse"
+	case eText != nil || viaText.String() != str:
+		return "UnmarshalText differs from Parse"
+	case eBin != nil || viaBin.String() != str:
+		return "UnmarshalBinary differs from Parse"
+	case eScanS != nil || viaScanS.String() != str || eScanB != nil || viaScanB.String() != str:
+		return "Scan differs from Parse"
+	}
+	if b, e := pp.MarshalText(); e != nil || string(b) != str {
+		return "MarshalText differs from String"
+	}
+	if b, e := pp.MarshalBinary(); e != nil || string(b) != str {
+		return "MarshalBinary differs from String"
+	}
+	if v, e := pp.Value(); e != nil || v != any(str) {
+		return "Value differs from String"
+	}
+	if pp.IsPredicate() != pp.AST.IsPredicate() {
+		return "IsPredicate differs from the AST's flag"
+	}
+	if want := map[bool]string{true: "@@", false: "@?"}[pp.IsPredicate()]; pp.PgIndexOperator() != want {
+		return "PgIndexOperator does not follow IsPredicate"
+	}
+	return ""
 }
 
 // decNode rebuilds a Go node from the wire form using the exported constructors.
